@@ -1,0 +1,9 @@
+//go:build verif
+
+package payload
+
+// MaxHashesCount under the verif build tag: block and inventory windows of a
+// few elements, so that simulated chains of tens of blocks cross them.
+const (
+	MaxHashesCount = 8
+)
